@@ -136,9 +136,35 @@ def parse_result(tok):
     return d["meta"], st, ents
 
 
+def parse_recs(txt):
+    recs = []
+    if txt in ("-", "", "?"):
+        return recs
+    for r in txt.split(","):
+        f = r[1:].split(".")
+        if r[0] == "e":
+            recs.append(("e", int(f[0], 16), int(f[1], 16), f[2]))
+        elif r[0] == "s":
+            recs.append(("s", int(f[0], 16), int(f[1], 16), int(f[2], 16)))
+        else:
+            recs.append(("n", int(f[0], 16), int(f[1], 16)))
+    return recs
+
+
 def parse_img_out(s):
-    """vse=.. at=i.t ver=.. r1=<cls | ok meta.. st.. ents..> [rep=0 | rep=1 size=.. r2=<..>]"""
-    o = dict(raw=s)
+    """vse=.. at=i.t ver=.. r1=<cls | ok meta.. st.. ents..> [rep=0 | rep=1 size=.. r2=<..>]
+       [tz=<0|1> cont=<records appended after the recovery> g2=at2=i.t <cls | ok ...>]"""
+    g2 = None
+    if " tz=" in s:
+        s, _, gen2 = s.partition(" tz=")
+        tz, _, rest = gen2.partition(" cont=")
+        crecs, _, g2txt = rest.partition(" g2=")
+        g2 = dict(tz=tz, cont=parse_recs(crecs), raw=g2txt)
+        if g2txt.startswith("at2="):
+            a, _, r = g2txt.partition(" ")
+            g2["at"] = tuple(int(x, 16) for x in a[4:].split("."))
+            g2["res"] = r
+    o = dict(raw=s, g2=g2)
     head, _, rest = s.partition(" r1=")
     h = kv(head)
     o["vse"] = h.get("vse")
@@ -360,6 +386,11 @@ def oracle(cases, impl):
                                    "%d saved records%s" % (st, len(ents), len(recs),
                                                            " [flipped bit lies in a record's %s]" % fclass if fclass else "")))
             continue
+        if ik == "F" and len(recs) not in ks:
+            fails.append(dict(name="closelost-" + cid, case=case,
+                              what="after a clean Close the reopen returned the effect of only %d of the %d saved records"
+                                   % (max(ks), len(recs))))
+            continue
         if max(ks) < req:
             fails.append(dict(name="lost-" + cid, case=case, signature=sig,
                               what="reopen returned the effect of only %d records although %d were saved before the last "
@@ -368,6 +399,28 @@ def oracle(cases, impl):
         slack = max(ks) - req
         if stats["min_slack"] is None or slack < stats["min_slack"]:
             stats["min_slack"] = slack
+        g2 = o.get("g2")
+        if g2 is not None:
+            stats["gen2"] = stats.get("gen2", 0) + 1
+            if g2["tz"] != "1":
+                fails.append(dict(name="dirtytail-" + cid, case=case,
+                                  what="after the recovery (Open + ReadAll in write mode) bytes survive in the tail segment "
+                                       "behind the last valid record"))
+                continue
+            if "res" not in g2 or not g2["res"].startswith("ok"):
+                fails.append(dict(name="gen2refused-" + cid, case=case,
+                                  what="records were appended to the recovered log and it was closed cleanly; the next "
+                                       "reopen does not succeed: " + g2["raw"][:80]))
+                continue
+            _, st2, ents2 = parse_result(g2["res"])
+            want = [effect(recs[:k] + g2["cont"], k + len(g2["cont"]), g2["at"], drop) for k in ks]
+            if (st2, ents2) not in want:
+                fails.append(dict(name="gen2-" + cid, case=case,
+                                  what="second generation: after recovery to a %d-record prefix, %d records were appended "
+                                       "and the log closed; the reopen returned (state %s, %d entries), not the effect of "
+                                       "prefix + appended records (something cut off came back, or something appended "
+                                       "was lost)" % (max(ks), len(g2["cont"]), st2, len(ents2))))
+                continue
         if ik in ("T", "X", "Z", "B"):
             nontrivial.add(vlib.case_hash(cur_line + c[1] + c[2]))
     return fails, hist, stats, nontrivial
@@ -449,7 +502,7 @@ def run(ctx):
                             f.write("c%d." % i + line + "\n")
             runs.append(("corpus", "-replay %s" % cc))
         if quick:
-            runs.append(("fresh", "-seed %d -n 14 -img 40 -exhaustive 1 -scen 12 -ndec 400" % ctx.seed))
+            runs.append(("fresh", "-seed %d -n 12 -img 30 -exhaustive 1 -scen 12 -ndec 300" % ctx.seed))
         else:
             runs.append(("fresh", "-seed %d -n 80 -img 120 -exhaustive 8 -big 2 -scen 80 -ndec 4000" % ctx.seed))
 
@@ -525,6 +578,9 @@ def run(ctx):
              "the model's byte for byte; the crash is placed inside the last operation; images of the tail: T cut+zero fill "
              "(every frame boundary +-9 and random offsets, exhaustive for short histories), X short file, Z zeroed 512-byte "
              "sectors after the sync point (single and pairs), B single bit flips, D tail segment missing, F undamaged. "
+             "Every accepted reopen of a non-bit-flip image is CONTINUED: the recovered wal must have an all-zero tail behind "
+             "its last valid record, the lost live entries are saved again unchanged, a new entry and a hard-state-only "
+             "Save follow, the wal is closed and reopened, judged against prefix + appended records. "
              "Non-trivial = a damaged image (T/X/Z/B) whose reopen returned data, distinct by hash of history+image.",
         histogram=hist_all,
         reopen_stats=stats_all,
